@@ -13,7 +13,7 @@ NA = {
 "C08":"stream_chunks_of_source_map_* are callback-driven",
 "C09":"480 lines of nested closures over RefCell tables",
 "C10":"reduces to C03 plus DashMap internals (Kani compiler ICE on DashMap)",
-"C13":"attribution laws need streaming contracts; text laws need C07",
+"C13":"attribution laws need streaming contracts; the text laws would need ConcatSource::new / add (flat_map + downcast_ref flattening) and CachedSource (DashMap) under contract, which C07's partial claim does not reach",
 "C15":"the property is entirely a contract on simd-json/serde, outside any contract within reach",
 "C16":"every Rope method is closure-with-tuple-pattern code (Verus rejects); Kani OOM-killed on 3-piece ropes",
 "C18":"Kani has no thread model; Verus would need its own permission types in place of Mutex/AtomicBool/DashMap",
